@@ -55,6 +55,31 @@ pub fn replay(path: &str) -> i32 {
     let prop = v["property"].as_str().unwrap_or("?").to_string();
     println!("replaying {} kind={} what={}", prop, v["kind"].as_str().unwrap_or("?"), v["what"].as_str().unwrap_or("?"));
     let case = &v["case"];
+    if case.get("layer").is_some() {
+        // a C04 input: run it through its layer again
+        return crate::c04::one(path);
+    }
+    if let (Some(doc), Some(key)) = (case["doc"].as_str(), case["key"].as_str()) {
+        if case.get("rule").is_none() {
+            // a C10 lookup: doc is JSON text, key a path
+            let d = crate::dval::from_yaml(&serde_yaml::from_str::<serde_yaml::Value>(doc).unwrap_or(serde_yaml::Value::Null));
+            let want = crate::dval::parse_path(key).and_then(|p| crate::dval::walk(&d, &p).cloned());
+            let m = crate::dval::to_yaml_map(&d);
+            let got = eng::guard(|| tau_engine::Object::find(&m, key).map(|v| crate::reps::from_value(&v)));
+            println!("find({:?}) on {} -> {:?} ; the path addresses {:?}", key, d.to_json_text(), got, want);
+            let same = match (&got, &want) {
+                (Ok(None), None) => true,
+                (Ok(Some(a)), Some(b)) => crate::dval::same(a, b),
+                _ => false,
+            };
+            if !same && crate::dval::parse_path(key).is_some() {
+                println!("VIOLATION property={} replay={}", prop, path);
+                return 1;
+            }
+            println!("case no longer deviates");
+            return 0;
+        }
+    }
     let Some(rule_text) = case["rule"].as_str() else {
         println!("case has no rule text; printing the recorded case only:\n{}", serde_json::to_string_pretty(case).unwrap());
         return 2;
